@@ -185,7 +185,7 @@ def enc_literal(b):
 def job_strings(payload):
     strings, nested = payload
     d = common.get_driver()
-    exe = os.path.join(common.VERIF, "build", "asan", "dwgrep", "dwgrep")
+    exe = os.path.join(common.VERIF, "build", common.VARIANT, "dwgrep", "dwgrep")
     env = dict(os.environ); env.update(common.ASAN_ENV)
     out = {"strings": 0, "bad": [], "samples": []}
     # one CLI invocation prints many one-value stacks, one per line
